@@ -1,0 +1,20 @@
+//go:build verif
+
+package license
+
+// Contracts for license parsing (properties C20, C09): "parsing any license string yields a license or an error"
+// is a safety contract - no panic for any input - on Parse and the per-version parsers. The base64 / snappy /
+// reflection codecs underneath are outside the verified code: their results are unconstrained here (any byte
+// string or an error), which is exactly the hostile-input reading.
+
+//@ verify parseV1 post=post_parseV1 props=C20,C09
+func post_parseV1(data string, res0 *V1, res1 error) bool { return res1 != nil || res0 != nil }
+
+//@ verify Parse post=post_Parse props=C20,C09
+func post_Parse(data string, res0 License, res1 error) bool { return res1 != nil || res0 != nil }
+
+//@ verify (*V1).Contract post=post_V1_Contract props=C20
+func post_V1_Contract(l *V1, res0 uint32) bool { return res0 == l.User }
+
+//@ verify (*V1).Signature post=post_V1_Signature props=C20
+func post_V1_Signature(l *V1, res0 uint32) bool { return res0 == l.Sign }
